@@ -611,7 +611,8 @@ Qed.
 (** and for a datagram that is authentic for nobody *)
 Theorem mon_decode_frame W st from wire ob :
   mon_decode W st from wire ob = true -> auth_check W st from wire = AuthNone ->
-  ob_ok ob = None /\ ob_changed ob = [] /\ ob_ident_changed ob = false /\ ob_added ob = O.
+  ob_ok ob = None /\ ob_changed ob = [] /\ ob_ident_changed ob = false /\ ob_added ob = O /\
+  ob_gstore_changed ob = false.
 Proof.
   unfold mon_decode. intros Hm Ha. rewrite Ha in Hm.
   repeat (apply andb_prop in Hm; destruct Hm as [Hm ?]).
@@ -620,6 +621,7 @@ Proof.
   - destruct (ob_changed ob); [reflexivity|discriminate].
   - destruct (ob_ident_changed ob); [discriminate|reflexivity].
   - apply Nat.eqb_eq. assumption.
+  - destruct (ob_gstore_changed ob); [discriminate|reflexivity].
 Qed.
 
 Lemma plain_eqb_eq a b : plain_eqb a b = true -> a = b.
